@@ -490,6 +490,26 @@ pub fn alloc_failed(stderr_tail: &str) -> Option<u128> {
     stderr_tail[at + 21..].split_whitespace().next()?.parse().ok()
 }
 
+/// Harness-side varint reader (RFC 9000 §16): (value, width).
+pub fn read_varint(b: &[u8]) -> Option<(u64, usize)> {
+    let first = *b.first()?;
+    let w = 1usize << (first >> 6);
+    if b.len() < w {
+        return None;
+    }
+    let mut v = (first & 0x3f) as u64;
+    for x in &b[1..w] {
+        v = (v << 8) | *x as u64;
+    }
+    Some((v, w))
+}
+
+/// The payload length a gossip / git frame declares (version, stream id, length), if present.
+pub fn declared_payload_len(input: &[u8]) -> Option<u64> {
+    let (_, w) = read_varint(input.get(4..)?)?;
+    read_varint(input.get(4 + w..)?).map(|x| x.0)
+}
+
 pub fn crash_label(c: Crash) -> String {
     match c {
         Crash::Hang => "hang".into(),
@@ -586,7 +606,11 @@ fn frames_on_panic(sp: &FrameSpace, it: &FrameItem, c: &Caught) -> Violation {
 
 fn frames_on_crash(sp: &FrameSpace, it: &FrameItem, crash: Crash, tail: &str) -> Violation {
     let input = sp.input(it);
-    let (fp, what) = match (crash, oversize(tail).or_else(|| alloc_failed(tail))) {
+    // The requested size is on the worker's stderr; should that tail be lost, the hard-cap exit
+    // code still identifies the cause and the size is the length the input declares.
+    let hard_cap_exit = matches!(crash, Crash::Abort { code: Some(c), .. } if c == mcx::alloc::OVERSIZE_EXIT);
+    let requested = oversize(tail).or_else(|| alloc_failed(tail)).or_else(|| if hard_cap_exit { declared_payload_len(&input).map(u128::from) } else { None });
+    let (fp, what) = match (crash, requested) {
         (Crash::Hang, _) => ("C13/frames/hang".to_string(), "frame decoding did not return within the item timeout".to_string()),
         (_, Some(n)) if n >= 1u128 << 47 => (
             "C13/frames/abort/alloc-beyond-address-space".to_string(),
@@ -754,11 +778,17 @@ impl PktSpace {
             PktItem::Neigh(k, m) => json!({"check": "13c", "family": "neighbourhood", "request": k, "mutation": m.to_json()}),
         }
     }
+    /// What the 4-byte length field says, read as the pkt-line format defines it.
+    fn declared(&self, it: &PktItem) -> Option<usize> {
+        let input = self.input(it);
+        let field = &input[..input.len().min(4)];
+        std::str::from_utf8(field).ok().filter(|_| field.len() == 4).and_then(|s| usize::from_str_radix(s, 16).ok())
+    }
     /// Abstract shape of the length field (used in fingerprints and class keys).
     fn shape(&self, it: &PktItem) -> String {
         let input = self.input(it);
         let field = &input[..input.len().min(4)];
-        let declared = std::str::from_utf8(field).ok().filter(|_| field.len() == 4).and_then(|s| usize::from_str_radix(s, 16).ok());
+        let declared = self.declared(it);
         let len = match declared {
             None if field.len() < 4 => "short-field",
             None => "non-hex",
@@ -797,7 +827,7 @@ fn pkt_on_panic(sp: &PktSpace, it: &PktItem, c: &Caught) -> Violation {
         format!("git_request panicked at {}:{} ({}) on a request header starting {:?} ({} bytes)", c.file, c.line, c.message, String::from_utf8_lossy(&input[..input.len().min(4)]), input.len()),
         sp.witness(it),
     )
-    .cost(input.len() as u64)
+    .cost(sp.declared(it).map(|d| d as u64).unwrap_or(70_000 + input.len() as u64))
 }
 
 fn pkt_on_crash(sp: &PktSpace, it: &PktItem, crash: Crash, tail: &str) -> Violation {
